@@ -67,7 +67,7 @@ def Book.step (b : Book) : Obs → Book
     let b := { b with openCalls := (cid, c) :: b.openCalls }
     match c with
     | .add q k _ => b.setJob k { b.job k with q := q, addCalled := true }
-    | .addAll q _ ks =>
+    | .addAll q _ ks _ =>
       let closing := b.closedQueues.contains q
       ks.foldl (fun b k => b.setJob k { b.job k with q := q, addCalled := true, batch := true, addRet := some true, maybeRejected := closing }) b
     | .qclose q => { b with closedQueues := q :: b.closedQueues }
@@ -102,7 +102,7 @@ def Book.step (b : Book) : Obs → Book
 def Book.markPurgeRace (b : Book) : Obs → Book
   | .call _ _ (.add q k _) =>
     if b.openCalls.any (fun c => c.2 == Call.purge q) then b.setJob k { b.job k with maybePurged := true } else b
-  | .call _ _ (.addAll q _ ks) =>
+  | .call _ _ (.addAll q _ ks _) =>
     if b.openCalls.any (fun c => c.2 == Call.purge q) then ks.foldl (fun b k => b.setJob k { b.job k with maybePurged := true }) b else b
   | _ => b
 
@@ -190,7 +190,7 @@ def maxL (l : List Nat) : Nat := l.foldl max 0
 def onEvent (s : St) (b : Book) (o : Obs) (b' : Book) : St × List Viol :=
   match o with
   | .call _ _ (.add _ k _) => ({ s with mx := upsert s.mx k (maxL s.lims) }, [])
-  | .call _ _ (.addAll _ _ ks) => ({ s with mx := ks.foldl (fun m k => upsert m k (maxL s.lims)) s.mx }, [])
+  | .call _ _ (.addAll _ _ ks _) => ({ s with mx := ks.foldl (fun m k => upsert m k (maxL s.lims)) s.mx }, [])
   | .call _ _ (.tune n) =>
     let l := limOf s.cpus n
     ({ s with lims := l :: s.lims, mx := s.mx.map (fun (k, m) => (k, max m l)) }, [])
@@ -416,6 +416,9 @@ def onEvent (s : St) (b : Book) (o : Obs) (_ : Book) : St × List Viol :=
   | .ret _ _ _ (.jwait k st) =>
     ({ s with waited := k :: s.waited, floor := upsert s.floor k 4 },
       if st != some .closed then [s!"status of job {k} read {repr st} right after Wait returned"] else [])
+  | .fjob k st =>
+    -- at rest: a handle whose Wait has returned is Closed and stays Closed
+    (s, if s.waited.contains k && st.isSome && st != some .closed then [s!"status of job {k} is {repr st} at rest although a Wait on it had returned (must stay Closed)"] else [])
   | _ => (s, [])
 
 def check (_ : Params) (tr : List Obs) (_ : EndInfo) : List Viol :=
@@ -442,7 +445,7 @@ def inBounds (s : St) (b : Book) (c : Counts) : List Viol :=
 def onEvent (s : St) (b : Book) (o : Obs) (_ : Book) : St × List Viol :=
   match o with
   | .call _ _ (.add _ _ _) => ({ s with addCalls := s.addCalls + 1 }, [])
-  | .call _ _ (.addAll _ _ ks) => ({ s with addCalls := s.addCalls + ks.length }, [])
+  | .call _ _ (.addAll _ _ ks _) => ({ s with addCalls := s.addCalls + ks.length }, [])
   | .call _ _ (.tune n) => ({ s with maxLim := max s.maxLim (C02.limOf 16 n) }, [])
   | .ret _ _ _ (.counts c) => (s, inBounds s b c)
   | .ret _ _ _ (.qpending q n) =>
